@@ -6,10 +6,10 @@ CONSTANTS
   RawW = TRUE
   RawR = FALSE
   RawTotal = 2
-  Tmos <- T1
-  MaxT = 2
-  Spurious = TRUE
-  Interrupts = TRUE
+  Tmos <- TI
+  MaxT = 0
+  Spurious = FALSE
+  Interrupts = FALSE
   Bug = "noskip"
 INVARIANTS ViewIsFunctionOfMoved StreamExact ReadWriteComplete RecvSendBounds NoHangPastTimeout WaitsOnlyForData
 CHECK_DEADLOCK FALSE
